@@ -117,11 +117,9 @@ def run_history(ctx, env, hist, kind):
             if rs[0] == 'ok':
                 use_disjoint = False     # from here on the two backends legitimately differ
             elif snap_s != prev_snap:
-                # a merge that raised half-way (policy naming a key the other node lacks: undocumented); the
-                # history ends here - nothing is specified about the store afterwards
-                ctx.count('merge:raised-after-partial-change(unspecified, history ends)')
-                ctx.seen(hist[:step + 1], changed)
-                return True
+                ctx.violation('C05/merge_nodes-refused-but-changed-the-store', 'a merge that is refused (e.g. its policy names a property '
+                              'the other node does not have) leaves both graphs as they were', dict(w, diff=state_diff(prev_snap, snap_s)))
+                return False
         elif use_disjoint:
             rd = execute(graphs['disjoint'], op)
             snap_d, prob_d = store_global_snapshot(env.imps['disjoint'][0])
